@@ -31,9 +31,10 @@ import (
 var optionHubs = [][2]string{
 	{"controller/services", "Services.setup"},
 	{"controller/legacy", "HAProxyController.configController"},
+	{"controller/config", "CreateWithConfig"}, // command-line options -> Config, the source of the two above
 }
 
-var optionTypes = map[string]bool{"haproxy.InstanceOptions": true, "types.ConverterOptions": true, "types.DynamicConfig": true}
+var optionTypes = map[string]bool{"haproxy.InstanceOptions": true, "types.ConverterOptions": true, "types.DynamicConfig": true, "config.Config": true}
 
 // optionDeps: option field -> the properties whose behaviour it selects (reviewed; one reason each).
 var optionDeps = map[string]struct {
@@ -71,6 +72,46 @@ var optionDeps = map[string]struct {
 	"types.ConverterOptions.HasTCPRouteA2":            {[]string{"C10"}, "enables the TCPRoute converter"},
 	"types.ConverterOptions.EnableEPSlices":           {[]string{"C03", "C11"}, "source of the endpoints"},
 	"types.DynamicConfig.StaticCrossNamespaceSecrets": {[]string{"C09", "C15"}, "the command-line permission"},
+	// Config, as filled from the command line by CreateWithConfig
+	"config.Config.AcmeServer":               {[]string{"C17"}, "enables the acme client, server and queue"},
+	"config.Config.AcmeTrackTLSAnn":          {[]string{"C17"}, "which Ingress are tracked by acme"},
+	"config.Config.AcmeCheckPeriod":          {[]string{"C17"}, "period of the expiration check"},
+	"config.Config.AcmeFailInitialDuration":  {[]string{"C17"}, "retry of a failed signing"},
+	"config.Config.AcmeFailMaxDuration":      {[]string{"C17"}, "retry of a failed signing"},
+	"config.Config.AllowCrossNamespace":      {[]string{"C09", "C15"}, "the command-line permission"},
+	"config.Config.AnnPrefix":                {[]string{"C09", "C16", "C18", "C19"}, "which annotations are read at all"},
+	"config.Config.BackendShards":            {[]string{"C05"}, "number of backend shard files"},
+	"config.Config.ConfigMapName":            {[]string{"C01", "C14"}, "which ConfigMap is the global configuration"},
+	"config.Config.TCPConfigMapName":         {[]string{"C01", "C14"}, "which ConfigMap holds the tcp services"},
+	"config.Config.ControllerName":           {[]string{"C08"}, "IngressClass controller match"},
+	"config.Config.IngressClass":             {[]string{"C08"}, "class annotation match"},
+	"config.Config.IngressClassPrecedence":   {[]string{"C08"}, "annotation versus spec.ingressClassName"},
+	"config.Config.WatchIngressWithoutClass": {[]string{"C08"}, "Ingress without class"},
+	"config.Config.DefaultDirMaps":           {[]string{"C04", "C05", "C12"}, "where the map files are written"},
+	"config.Config.DefaultDirVarRun":         {[]string{"C02", "C12"}, "directory of the sockets"},
+	"config.Config.DefaultDirCerts":          {[]string{"C15"}, "where certificates are written"},
+	"config.Config.DefaultDirCACerts":        {[]string{"C15"}, "where CA bundles are written"},
+	"config.Config.DefaultDirCrl":            {[]string{"C15"}, "where CRLs are written"},
+	"config.Config.DefaultService":           {[]string{"C07"}, "the default backend"},
+	"config.Config.DefaultSSLCertificate":    {[]string{"C15"}, "the default certificate"},
+	"config.Config.DisableKeywords":          {[]string{"C19"}, "the keyword filter"},
+	"config.Config.Election":                 {[]string{"C13", "C17"}, "leader-only services and the leader test"},
+	"config.Config.EnableEndpointSliceAPI":   {[]string{"C03", "C11"}, "source of the endpoints"},
+	"config.Config.HasGatewayA2":             {[]string{"C10"}, "enables the Gateway watchers and converter"},
+	"config.Config.HasGatewayB1":             {[]string{"C10"}, "enables the Gateway watchers and converter"},
+	"config.Config.HasGatewayV1":             {[]string{"C10"}, "enables the Gateway watchers and converter"},
+	"config.Config.HasTCPRouteA2":            {[]string{"C10"}, "enables the TCPRoute watchers and converter"},
+	"config.Config.LocalFSPrefix":            {[]string{"C05", "C12"}, "prefix of every written file"},
+	"config.Config.MasterSocket":             {[]string{"C02", "C12"}, "external HAProxy and its reload socket"},
+	"config.Config.MasterWorker":             {[]string{"C02", "C12"}, "selects the reload method"},
+	"config.Config.RateLimitUpdate":          {[]string{"C13"}, "reconciliation rate"},
+	"config.Config.WaitBeforeUpdate":         {[]string{"C13"}, "initial wait of a reconciliation"},
+	"config.Config.ReloadInterval":           {[]string{"C12", "C13"}, "reload rate"},
+	"config.Config.ReloadRetry":              {[]string{"C12"}, "retry of a failed update"},
+	"config.Config.ReloadStrategy":           {[]string{"C02", "C12"}, "argument of the reload script"},
+	"config.Config.ValidateConfig":           {[]string{"C12"}, "validation before a dynamic update is acknowledged"},
+	"config.Config.SortEndpointsBy":          {[]string{"C06", "C11"}, "order of the server slots"},
+	"config.Config.VerifyHostname":           {[]string{"C15"}, "hostname check of certificates"},
 }
 
 // optionShared: objects that must be the same object on both sides (hub, option field, callee, argument index).
@@ -113,23 +154,35 @@ func structFieldStores(x *ssa.Alloc) map[string][]ssa.Value {
 // optionValueText renders a value stored into an option field; a read of a field of another structure
 // built in place in the same function (`IsExternal: instanceOptions.IsExternal`) is rendered as what
 // that field was filled with, so that the row does not depend on the other fields of that structure.
-func optionValueText(v ssa.Value) string {
+func optionValueText(v ssa.Value) string { return optionValueTextS(v, map[ssa.Value]bool{}) }
+
+func optionValueTextS(v ssa.Value, seen map[ssa.Value]bool) string {
 	if u, ok := v.(*ssa.UnOp); ok {
 		if fa, ok := u.X.(*ssa.FieldAddr); ok {
 			if al, ok := fa.X.(*ssa.Alloc); ok {
 				_, f := core.FieldOf(fa)
 				if vs := structFieldStores(al)[f]; len(vs) == 1 {
-					return optionValueText(vs[0])
+					return optionValueTextS(vs[0], seen)
 				}
 			}
 		}
 	}
 	if ph, ok := v.(*ssa.Phi); ok {
+		if seen[ph] {
+			return "↺"
+		}
+		for _, l := range core.Loops(ph.Parent()) {
+			if l.Blocks[ph.Block()] {
+				return argText(v) // built by a loop: the set of values, no path conditions
+			}
+		}
+		seen[ph] = true
+		defer delete(seen, ph)
 		// a value chosen by the surrounding ifs: each input with the conditions of the path it arrives on
 		var parts []string
 		for i, e := range ph.Edges {
 			g := edgeGuard(ph.Block().Preds[i], ph.Block())
-			t := optionValueText(e)
+			t := optionValueTextS(e, seen)
 			if g != "" {
 				t += " when " + g
 			}
@@ -227,7 +280,7 @@ func init() {
 		fields := byProp[p]
 		sort.Strings(fields)
 		addRule(p, &core.Rule{ID: p + ".options-wiring", Floor: len(fields), Run: func(c *core.Ctx) { optionsWiring(c, p, fields) },
-			Doc: "Option wiring: the fields of InstanceOptions / ConverterOptions / DynamicConfig this property depends on (" + strings.Join(shortFields(fields), ", ") + ") are filled, by Services.setup and by the legacy configController, with the reviewed expressions (rules/options_gen.go: configuration value, rendered name-independently), and the objects that must be shared between the cache and the converters (tracker, permission bits, cache) are one object. Every unit test builds its own options, so a field filled from the wrong configuration value, from a constant or not at all is invisible to the suite. Only the listed fields are compared: the two functions wire every service of the process."})
+			Doc: "Option wiring: the fields of Config / InstanceOptions / ConverterOptions / DynamicConfig this property depends on (" + strings.Join(shortFields(fields), ", ") + ") are filled, by Services.setup, by the legacy configController and (Config, from the command line) by CreateWithConfig, with the reviewed expressions (rules/options_gen.go: configuration value, rendered name-independently), and the objects that must be shared between the cache and the converters (tracker, permission bits, cache) are one object. Every unit test builds its own options, so a field filled from the wrong configuration value, from a constant or not at all is invisible to the suite. Only the listed fields are compared: the two functions wire every service of the process."})
 	}
 }
 
